@@ -99,6 +99,13 @@ def m(v):
     match v:
         case [head, *tail]: return head, tail
         case {'k': value, **others}: return value, others
+        case {'k': 1,  # the tail of it
+              **tail}: return tail
+        case {**
+               whole  # whole mapping
+             }: return whole
+        case {'inner': {**inner}, 'inner2': 2, **outer,
+             }: return inner, outer
         case str() as text: return text
 ''',
 }
